@@ -11,7 +11,7 @@ confirm = "not re-run"
 ok = True
 ct = [a for a in sys.argv[1:] if a.startswith('--confirm-text=')]
 if ct:
-    confirm = ct[0][len('--confirm-text='):].replace('_', ' ')
+    confirm = ct[0][len('--confirm-text='):]
 elif '--no-confirm' not in sys.argv:
     best = None
     for attempt in range(3):  # the suite has load-sensitive tests; repeat a run that fails on one of them
